@@ -165,9 +165,15 @@ def check(ctx):
                      [t for k, t in facts if k == "F" and "_predecessor" in t and "None" in t]
             # the guard may only exclude a missing predecessor
             bad = [t for k, t in facts if "_predecessor" not in t and not t.startswith("iter:")]
-            ok = not bad
+            link = norm(recv)
+            truthy = [t for k, t in facts if "_predecessor" in t and
+                      t.replace("(", "").replace(")", "").strip() in (link, f"bool{link}", f"len{link}", f"len{link} > 0", f"len{link} != 0")]
+            ok = not bad and not truthy
             why = (f"recursion into the predecessor guarded only by {guards or 'nothing'}" if ok else
-                   f"recursion into the predecessor is conditional on {bad}: some ancestors are never marked")
+                   f"recursion into the predecessor is conditional on {bad}: some ancestors are never marked" if bad else
+                   f"the predecessor link is tested by truthiness ({truthy[0]}): a ListOfDicts is a list, so an EMPTY predecessor "
+                   f"(clear(), head(0), a filter matching nothing) is falsy and the marking stops there -- its ancestors share the "
+                   f"edited items but never report themselves obsolete")
     ctx.ob("EFF-2", mark, "self._predecessor._mark_obsolete()", rec[0] if rec else mark.node, ok, why,
            clause="every list from which it was obtained reports itself obsolete")
 
